@@ -417,7 +417,7 @@ def e2e_spec(backend, n, bad, seed, perm=None, dim=2, steps=8, dt=20.0):
 
 
 def e2e_problem(spec):
-    return D.random_problem(random.Random(spec["seed"]), spec["n"], spec["steps"], dt=spec["dt"])
+    return D.random_problem(random.Random(spec["seed"]), spec["n"], spec["steps"], dt=spec["dt"], scale=spec.get("scale", 1.0))
 
 
 def e2e_reference(spec, prob):
@@ -532,6 +532,188 @@ def e2e_specs(ctx):
     return specs
 
 
+# ---- E. bad atoms together with Lindblad noise -------------------------------------------------------------------------
+NOISE_TOL = {"sv": 1e-7, "mps": 1e-6}    # bad-atom run vs sub-register run, same backend, same jump pattern: same arithmetic
+NOJUMP_TOL = {"sv": 1e-5, "mps": 2e-3}   # vs dense normalised H_eff evolution (mps: TDVP error, as OCC_TOL)
+
+
+def noise_spec(mode, backend, n, bad, seed, rseed, relaxation, dephasing, perm=None, steps=8, dt=20.0):
+    return {"kind": "noise", "mode": mode, "backend": backend, "n": n, "bad": [bool(x) for x in bad], "seed": int(seed),
+            "rseed": int(rseed), "relaxation": float(relaxation), "dephasing": float(dephasing), "perm": perm,
+            "steps": steps, "dt": dt, "scale": 2.5}
+
+
+def lindblad_ops(spec):
+    import torch
+
+    ops = []
+    if spec["relaxation"] > 0:
+        L = torch.zeros(2, 2, dtype=torch.complex128)
+        L[0, 1] = spec["relaxation"] ** 0.5          # |g><r|
+        ops.append(L)
+    if spec["dephasing"] > 0:
+        L = torch.zeros(2, 2, dtype=torch.complex128)
+        L[0, 0], L[1, 1] = (spec["dephasing"] / 2) ** 0.5, -(spec["dephasing"] / 2) ** 0.5
+        ops.append(L)
+    return ops
+
+
+class NoJumpRandom:
+    """stand-in for the `random` module inside emu_mps.mps_backend_impl: the jump threshold is (almost) 0, so the
+    trajectory never jumps; every value is then the normalised H_eff evolution"""
+
+    def uniform(self, a, b):
+        return a + 1e-9 * (b - a)
+
+    def choices(self, *a, **k):
+        raise RuntimeError("a quantum jump was attempted in a scripted no-jump trajectory")
+
+    def __getattr__(self, k):
+        return getattr(random, k)
+
+
+def sub_problem(prob, good):
+    return dict(n=len(good), steps=prob["steps"], times=prob["times"], omega=prob["omega"][:, good],
+                delta=prob["delta"][:, good], phi=prob["phi"][:, good], U=prob["U"][np.ix_(good, good)], xy=False)
+
+
+def noisy_run(backend, prob, bad, spe, ops, perm, rseed, no_jump, et):
+    import emu_mps
+    import emu_mps.mps_backend_impl as impl_mod
+    import emu_sv
+    from pulser.backend import CorrelationMatrix, Energy, Occupation
+
+    obs = [Occupation(evaluation_times=et), Energy(evaluation_times=et), CorrelationMatrix(evaluation_times=et)]
+    data = D.to_sequence_data(prob, lindblad_ops=ops, bad_atoms=bad, state_prep_error=spe)
+    random.seed(rseed)
+    with warnings.catch_warnings():
+        warnings.simplefilter("ignore")
+        if backend == "mps":
+            saved = impl_mod.random
+            try:
+                if no_jump:
+                    impl_mod.random = NoJumpRandom()
+                with Forced(perm if perm else list(range(prob["n"]))):
+                    res = emu_mps.MPSBackend._run_from_sequence_data(data, mps_config(obs, reorder=perm is not None))
+            finally:
+                impl_mod.random = saved
+        else:
+            res = emu_sv.SVBackend._run_from_sequence_data(
+                data, emu_sv.SVConfig(observables=obs, gpu=False, log_level=logging.CRITICAL))
+    out = {"atom_order": list(res.atom_order)}
+    for t in et:
+        out[f"occ@{t}"] = np.array([float(x) for x in res.get_result("occupation", t)])
+        out[f"corr@{t}"] = np.array([[float(np.real(complex(x))) for x in row] for row in res.get_result("correlation_matrix", t)])
+        out[f"energy@{t}"] = float(res.get_result("energy", t))
+    return out
+
+
+def heff_reference(prob, ops, et):
+    """normalised no-jump evolution under H - (i/2) sum_j sum_k (L_k^dag L_k)_j ; occupations at the evaluation times"""
+    import scipy.linalg as sla
+
+    n, steps = prob["n"], prob["steps"]
+    LdL = sum((L.numpy().conj().T @ L.numpy() for L in ops), np.zeros((2, 2), dtype=complex))
+    damp = sum((D._embed(LdL, j, n) for j in range(n)), np.zeros((2 ** n, 2 ** n), dtype=complex))
+    psi = np.zeros(2 ** n, dtype=complex)
+    psi[0] = 1.0
+    out, norms = {}, {}
+    for k in range(steps):
+        H = D.dense_H(prob["omega"][k], prob["delta"][k], prob["phi"][k], prob["U"]) - 0.5j * damp
+        psi = sla.expm(-1j * H * (prob["times"][k + 1] - prob["times"][k]) * 1e-3) @ psi
+        for t in et:
+            if round(t * steps) == k + 1:
+                nrm = float(np.vdot(psi, psi).real)
+                out[t], norms[t] = D.occupation(psi / nrm ** 0.5, n), nrm
+    return out, norms
+
+
+def noise_run(spec):
+    prob = e2e_problem(spec)
+    n = spec["n"]
+    good = [i for i, x in enumerate(spec["bad"]) if not x]
+    et = [0.5, 1.0] if spec["steps"] % 2 == 0 else [1.0]
+    ops = lindblad_ops(spec)
+    sub = sub_problem(prob, good)
+    perm = spec["perm"]
+    sub_perm = None
+    if perm is not None:
+        sub_perm = [good.index(a) for a in perm if a in good]     # the good atoms in internal order, as ranks
+    no_jump = spec["mode"] == "no-jump"
+    try:
+        full = noisy_run(spec["backend"], prob, spec["bad"], 0.05, ops, perm, spec["rseed"], no_jump, et)
+        small = noisy_run(spec["backend"], sub, [False] * len(good), 0.0, ops, sub_perm, spec["rseed"], no_jump, et)
+    except Exception as ex:  # noqa: BLE001
+        return {"outcome": "raises", "exception": type(ex).__name__, "message": str(ex)[:160]}
+    worst, scale = 0.0, 0.0
+    for t in et:
+        occ = np.zeros(n)
+        occ[good] = small[f"occ@{t}"]
+        corr = np.zeros((n, n))
+        corr[np.ix_(good, good)] = small[f"corr@{t}"]
+        worst = max(worst, float(np.abs(full[f"occ@{t}"] - occ).max()), float(np.abs(full[f"corr@{t}"] - corr).max()),
+                    abs(full[f"energy@{t}"] - small[f"energy@{t}"]) / 10.0)
+        scale = max(scale, float(occ.max()))
+    r = {"outcome": "ok", "worst_vs_subregister": worst, "max_occupation": scale, "atom_order": full["atom_order"],
+         "occ_full": full["occ@1.0"].tolist(), "occ_subregister": small["occ@1.0"].tolist()}
+    if no_jump:
+        ref, norms = heff_reference(sub, ops, et)
+        err = 0.0
+        for t in et:
+            occ = np.zeros(n)
+            occ[good] = ref[t]
+            err = max(err, float(np.abs(full[f"occ@{t}"] - occ).max()))
+        r.update({"worst_vs_heff": err, "norm2_at_end": norms[et[-1]], "occ_heff": ref[et[-1]].tolist()})
+    return r
+
+
+def noise_judge(ctx, spec, r):
+    be = spec["backend"]
+    ctx.count_case({k: spec[k] for k in ("kind", "mode", "backend", "n", "bad", "perm", "seed", "rseed", "relaxation", "dephasing")}
+                   | {"outcome": r["outcome"]}, nontrivial=any(spec["bad"]))
+    if r["outcome"] == "raises":
+        ctx.violation(f"emu-{be} raises with bad atoms and Lindblad noise: {r['exception']}: {r['message']}",
+                      {"spec": spec, "result": r, "finding_key": f"noise-{be}-raises"})
+        return
+    bad = []
+    if r["worst_vs_subregister"] > NOISE_TOL[be]:
+        bad.append(f"differs from the run on the good-atom sub-register (same seed) by {r['worst_vs_subregister']:.3g}: "
+                   f"occupation {r['occ_full']} vs {r['occ_subregister']}")
+    if "worst_vs_heff" in r and r["worst_vs_heff"] > NOJUMP_TOL[be]:
+        bad.append(f"no-jump trajectory differs from the normalised H_eff evolution by {r['worst_vs_heff']:.3g} "
+                   f"(squared norm at the end {r['norm2_at_end']:.3g}): occupation {r['occ_full']} vs {r['occ_heff']}")
+    if r["atom_order"] != [f"q{i}" for i in range(spec["n"])]:
+        bad.append(f"atom_order {r['atom_order']}")
+    if bad:
+        ctx.violation(f"emu-{be} with bad atoms {spec['bad']} and Lindblad noise: " + "; ".join(bad),
+                      {"spec": spec, "result": r, "finding_key": f"dark-atoms-with-noise-{be}"})
+
+
+def noise_specs(ctx):
+    rng = ctx.rng
+    specs = []
+    for i in range(ctx.n(3, 12)):
+        n = rng.choice([3, 4, 4, 5]) if ctx.thorough() else rng.choice([3, 4])
+        seed = rng.randrange(10 ** 6)
+        k = rng.randint(1, n - 2)
+        bad = [False] * n
+        for j in rng.sample(range(n), k):
+            bad[j] = True
+        relax, deph = rng.choice([(3.0, 0.0), (0.0, 3.0), (2.0, 2.0)])
+        perm = None
+        if i % 2 == 1:
+            perm = list(range(n))
+            rng.shuffle(perm)
+        # scripted no-jump trajectory (emu-mps) against the dense normalised H_eff evolution, and the density matrix
+        specs.append(noise_spec("no-jump", "mps", n, bad, seed, 1, relax, deph, perm=perm))
+        # real Monte-Carlo trajectories: same python `random` seed for the bad-atom run and the sub-register run
+        for rseed in (rng.randrange(10 ** 6), rng.randrange(10 ** 6)):
+            specs.append(noise_spec("same-seed", "mps", n, bad, seed, rseed, relax, deph, perm=perm))
+        if n <= 4:
+            specs.append(noise_spec("same-seed", "sv", n, bad, seed, 0, relax, deph))
+    return specs
+
+
 def corpus_specs():
     p = common.VERIF / "corpus" / "C25.json"
     return json.loads(p.read_text()) if p.exists() else []
@@ -621,7 +803,10 @@ def run(ctx):
     common.coq_make(["Model/DarkSv.vo", "Model/DarkMps.vo"])
     common.standard_proof_stage(ctx, "C25", ["Properties/C25.vo"])
     for spec in corpus_specs():
-        e2e_judge(ctx, spec, e2e_run(spec))
+        if spec.get("kind") == "noise":
+            noise_judge(ctx, spec, noise_run(spec))
+        else:
+            e2e_judge(ctx, spec, e2e_run(spec))
     correspondence(ctx)
     worst = {"sv": 0.0, "mps": 0.0}
     for spec in e2e_specs(ctx):
@@ -630,11 +815,26 @@ def run(ctx):
             worst[spec["backend"]] = max(worst[spec["backend"]], r["occ_err"], r["corr_err"])
         e2e_judge(ctx, spec, r)
     ctx.extra["e2e_worst_error"] = worst
+    nworst = {"vs_subregister": {"sv": 0.0, "mps": 0.0}, "vs_heff": 0.0, "min_norm2_no_jump": 1.0, "max_occupation": 0.0}
+    for spec in noise_specs(ctx):
+        r = noise_run(spec)
+        if r["outcome"] == "ok":
+            d = nworst["vs_subregister"]
+            d[spec["backend"]] = max(d[spec["backend"]], r["worst_vs_subregister"])
+            nworst["max_occupation"] = max(nworst["max_occupation"], r["max_occupation"])
+            if "worst_vs_heff" in r:
+                nworst["vs_heff"] = max(nworst["vs_heff"], r["worst_vs_heff"])
+                nworst["min_norm2_no_jump"] = min(nworst["min_norm2_no_jump"], r["norm2_at_end"])
+        noise_judge(ctx, spec, r)
+    ctx.extra["noise_worst_error"] = nworst
     ctx.rule = ("(a) integer SequenceData for every mask of 1-5 atoms (emu-sv) and every mask x permutation (emu-mps: all "
                 "permutations for N<=4, sampled for N=5; both basis sizes; with/without initial state / state_prep_error): "
                 "recorded solver inputs, filter, qubit_count and exception class vs vm_compute of the model; "
                 "(b) random shape chains x masks (1/6 malformed) for the padding helpers and the MPS constructor; "
-                "(c) end-to-end runs vs the dense reference of the good-atom sub-register. Non-trivial = at least one bad atom.")
+                "(c) end-to-end runs vs the dense reference of the good-atom sub-register; (d) bad atoms together with hand-built "
+                "relaxation/dephasing Lindblad operators: bad-atom run vs the run on the good-atom sub-register under the same "
+                "python `random` seed (emu-mps Monte-Carlo trajectories, emu-sv density matrix), and a scripted no-jump emu-mps "
+                "trajectory vs the dense normalised H_eff evolution. Non-trivial = at least one bad atom.")
     ctx.trusted_base += ["hand-written Model/DarkSv.v, Model/DarkMps.v (validated by the exact correspondences on every run)",
                          "C06_H_apply_dense / C05 (the Hamiltonians the backends apply are the dense ones the theorems speak about)",
                          "dense reference tools/props/_dense_ref.py (scipy expm) for the falsifier"]
@@ -642,12 +842,17 @@ def run(ctx):
                         "state supported on the sector inside it (any polynomial in H does) is not proved, it is validated "
                         f"end to end (occupation/correlation tolerance {OCC_TOL}, energy {EN_TOL} per atom)",
                         "surjectivity of sub_index onto the sub-register basis is not proved",
-                        "other noise channels than leakage's 3-level basis are not combined with bad atoms here"]
+                        "noise combined with bad atoms: relaxation and dephasing only (channels that excite g, e.g. depolarising, "
+                        "would legitimately excite a bad atom in emu-sv's density matrix and are outside the comparison)"]
 
 
 def replay(ctx, path):
     rp = json.load(open(path))
-    if "spec" in rp:
+    if "spec" in rp and rp["spec"].get("kind") == "noise":
+        r = noise_run(rp["spec"])
+        print("replay:", r)
+        noise_judge(ctx, rp["spec"], r)
+    elif "spec" in rp:
         r = e2e_run(rp["spec"])
         print("replay:", {k: v for k, v in r.items() if k not in ("occ", "occ_ref")})
         e2e_judge(ctx, rp["spec"], r)
